@@ -95,13 +95,17 @@ Proof.
     pose proof (Hb 0%nat 10%N (VI 9) eq_refl eq_refl) as H10.
     pose proof (Hb 1%nat 11%N (VI 4) eq_refl eq_refl) as H11.
     unfold sc_of in H10, H11.
-    eexists. cbn [mrun length]. cbn [Nat.ltb Nat.leb STACK_MAX].
+    eexists. cbn [mrun p_op p_imms].
+    change (STACK_MAX <? length [VI 1000])%nat with false. cbv iota.
     change (exec_op cx0 O_load [IInt 10] [VI 1000] st1)
       with (OOk (scratch_get (s_scratch st1) 10 :: [VI 1000]) st1).
-    cbv iota. rewrite H10. cbn [mrun length].
+    cbv iota. rewrite H10.
+    change (STACK_MAX <? length [VI 9; VI 1000])%nat with false. cbv iota.
     change (exec_op cx0 O_load [IInt 11] [VI 9; VI 1000] st1)
       with (OOk (scratch_get (s_scratch st1) 11 :: [VI 9; VI 1000]) st1).
-    rewrite H11. reflexivity.
+    cbv iota. rewrite H11.
+    change (STACK_MAX <? length [VI 4; VI 9; VI 1000])%nat with false. cbv iota.
+    reflexivity.
 Qed.
 
 (* the scratch prologue in the straight-line semantics *)
